@@ -240,7 +240,7 @@ def deductive(check, tier):
     for c in J.CONTRACTS:
         verify(c, tier, check)
     check.assume("deductive sub-result: FmtStr.ljust / rjust (fillchar None) for every value and width, over the contracts of shared_atts, "
-                 "new_with_atts_removed, __add__/__radd__, .s and an ASSUMED contract of fmtstr(blanks, **attributes read from runs); "
+                 "new_with_atts_removed, __add__/__radd__, .s and the contract of fmtstr(blanks, **attributes) (verified in C14 for every key set); "
                  "split / splitlines / delegated methods are regex / reflection code: bounded only")
     s = Suite(check, "C15.justify_contracts", "the ljust / rjust contracts evaluated at run time on every layout of <= 3 runs over 4 texts x 5 "
               "attribute sets x widths len-1..len+2", bound="<= 3 runs")
